@@ -33,6 +33,9 @@ func VfCopyRoundTrip() {
 	_, err := p.PutObject(vfCtx(), s3response.PutObjectInput{Bucket: vfStr("bkt"), Key: &key, Body: bytes.NewReader(body), ContentLength: &clen,
 		ContentType: &ctype, Metadata: map[string]string{"owner": mval}})
 	zzvf.Assert(err == nil, "setup-source")
+	// tags of the source: a plain one and one whose key and value hold characters that are reserved in URLs
+	srcTags := map[string]string{"plain": zzvf.StringN("tag_value", 1), "eu west/team": "a b+c=d:e@f"}
+	zzvf.Assert(p.PutObjectTagging(vfCtx(), "bkt", key, srcTags) == nil, "setup-source-tags")
 	sum := zzvf.SumMD5(body)
 	wantETag := "\"" + hex.EncodeToString(sum[:]) + "\""
 	dest := zzvf.Choice("destination", 3) // 0 another key, 1 another bucket, 2 the source itself
@@ -47,7 +50,7 @@ func VfCopyRoundTrip() {
 	newType := zzvf.StringN("new_content_type", 1)
 	newVal := zzvf.StringN("new_meta_value", 1)
 	in := s3response.CopyObjectInput{Bucket: &dstBucket, Key: &dstKey, CopySource: vfStr("bkt/k"), ExpectedBucketOwner: vfStr(""),
-		MetadataDirective: types.MetadataDirectiveCopy}
+		MetadataDirective: types.MetadataDirectiveCopy, TaggingDirective: types.TaggingDirectiveCopy}
 	if replace {
 		in.MetadataDirective = types.MetadataDirectiveReplace
 		in.ContentType = &newType
@@ -76,6 +79,12 @@ func VfCopyRoundTrip() {
 		zzvf.Assert(g.ContentLength != nil && *g.ContentLength == clen, what+"-has-the-source-length")
 		zzvf.Assert(g.ContentType != nil && *g.ContentType == wantType, what+"-content-type")
 		zzvf.Assert(g.Metadata["owner"] == wantMeta, what+"-user-metadata")
+		// tags travel with the object (no tagging directive given: they are copied)
+		tags, terr := q.GetObjectTagging(vfCtx(), bucket, k)
+		zzvf.Assert(terr == nil, what+"-tags-readable")
+		if terr == nil {
+			zzvf.Assert(zzvf.And(len(tags) == len(srcTags), tags["plain"] == srcTags["plain"], tags["eu west/team"] == srcTags["eu west/team"]), what+"-has-the-source-tags")
+		}
 	}
 	if err == nil && withChecksum {
 		// the checksum the copy was asked to compute is the checksum of the object's bytes
